@@ -53,19 +53,24 @@ def conv_inst(name, dwm, dws, awm, mode="A", adrs=None, sels=None, ctis=((0, 0),
                   slave_gen=RefSlave(nbs), monitor=mon)
 
 
-def conv_sram_inst(name, dwm, dws, awm, depth, init=None, mode="A", adrs=None, sels=None, ctis=((0, 0),)):
+def conv_sram_inst(name, dwm, dws, awm, depth, init=None, mode="A", adrs=None, sels=None, ctis=((0, 0),), burst=False):
+    """Converter over a real SRAM.  `burst=True`: the SRAM's bus is bursting and (mode B) the master issues
+    linear incrementing bursts, which the DownConverter forwards as bursts (wrapping ones it turns classic)."""
     nbm, nbs = dwm // 8, dws // 8
     init = init or []
-    top = L.build_conv_sram(dwm, dws, awm, depth, init=list(init) or None)
+    top = L.build_conv_sram(dwm, dws, awm, depth, init=list(init) or None, burst=burst)
     if dwm > dws:
-        lean_open = P("down_sram", nbs, L.log2i(dwm // dws), depth, top.aws, 0, 0, *init)
+        lean_open = P("down_sram", nbs, L.log2i(dwm // dws), depth, top.aws, 0, int(burst), *init)
     else:
-        lean_open = P("up_sram", nbm, L.log2i(dws // dwm), depth, top.aws, 0, 0, *init)
-    mon = lambda: MasterMemMonitor(nbm, depth * nbs, init_bytes(init, nbs), max_wait=4 * max(1, dwm // dws) + 2)
+        lean_open = P("up_sram", nbm, L.log2i(dws // dwm), depth, top.aws, 0, int(burst), *init)
+    mon = lambda: MasterMemMonitor(nbm, depth * nbs, init_bytes(init, nbs), max_wait=4 * max(1, dwm // dws) + 2,
+                                   bursts=burst)
     if mode == "A":
         alpha = L.master_letters(nbm, adrs, sels, L.lane_values(nbm), ctis)
         return WbInst(name, top, lean_open, alphabet=alpha, monitor=mon)
-    return WbInst(name, top, lean_open, master_gen=ClassicMaster(nbm, (1 << awm) - 1, cti_random=True), monitor=mon)
+    mg = (BurstMaster(nbm, (1 << awm) - 1, linear_only=True) if burst
+          else ClassicMaster(nbm, (1 << awm) - 1, cti_random=True))
+    return WbInst(name, top, lean_open, master_gen=mg, monitor=mon)
 
 
 def remap_inst(name, dw, aw, origin, size, regions, addressing="word", depth=None, init=None, mode="A", adrs=None,
@@ -154,13 +159,18 @@ def jobs(tier):
     quick = tier == "quick"
     J = []
 
-    def A(mk, q=None, t=None, **kw):
+    def A(mk, q=None, t=None, w=1, **kw):
         """Exhaustive co-exploration; `q` / `t` bound the number of product states in the quick / thorough tier
-        (None: the complete reachable product is explored; bounded jobs report exhaustive=false)."""
-        J.append(Job("A", mk, max_states=((q if quick else t) or 3000000), **kw))
+        (None: the complete reachable product is explored; bounded jobs report exhaustive=false).  `w`: relative
+        cost, the costly jobs are started first."""
+        jb = Job("A", mk, max_states=((q if quick else t) or 3000000), **kw)
+        jb.weight = w
+        J.append(jb)
 
     def B(mk, **kw):
-        J.append(Job("B", mk, cycles=kw.pop("cycles", 4000 if quick else 40000), runs=1 if quick else 4, **kw))
+        jb = Job("B", mk, cycles=kw.pop("cycles", 4000 if quick else 20000), runs=1 if quick else 3, **kw)
+        jb.weight = 2
+        J.append(jb)
 
     S1 = [(0, 0, 0), (1, 0, 0), (1, 0xA1, 0), (0, 0xA1, 0)]
     CT = ((0, 0), (2, 0), (7, 0), (2, 1), (7, 1))
@@ -185,10 +195,10 @@ def jobs(tier):
     A(lambda: conv_inst("Up 8->32", 8, 32, 3, adrs=range(8), sels=[0, 1],
                         slave_letters=[(0, 0, 0), (1, 0xD4C3B2A1, 0), (0, 0, 1)]))
     # --- converters over a real SRAM (real modules composed in one Migen module)
-    A(lambda: conv_sram_inst("Down 16->8 / SRAM d4", 16, 8, 2, 4, adrs=range(2 if quick else 3), sels=range(4)))
-    A(lambda: conv_sram_inst("Down 32->8 / SRAM d4", 32, 8, 2, 4, adrs=range(2), sels=[0, 0xF, 1, 8, 6, 3]), q=900, t=70000)
+    A(lambda: conv_sram_inst("Down 16->8 / SRAM d4", 16, 8, 2, 4, adrs=range(2 if quick else 3), sels=range(4)), w=8)
+    A(lambda: conv_sram_inst("Down 32->8 / SRAM d4", 32, 8, 2, 4, adrs=range(2), sels=[0, 0xF, 1, 8, 6, 3]), q=900, t=25000, w=5)
     if not quick:
-        A(lambda: conv_sram_inst("Down 32->8 / SRAM d8", 32, 8, 2, 8, adrs=range(3), sels=[0, 0xF, 1, 8, 6]), t=12000)
+        A(lambda: conv_sram_inst("Down 32->8 / SRAM d8", 32, 8, 2, 8, adrs=range(3), sels=[0, 0xF, 1, 8, 6]), t=8000)
     A(lambda: conv_sram_inst("Up 8->16 / SRAM d2", 8, 16, 4, 2, adrs=range(5), sels=[0, 1]))
     A(lambda: conv_sram_inst("Up 8->32 / SRAM d2", 8, 32, 4, 2, adrs=range(5 if quick else 9), sels=[0, 1]))
     if not quick:
@@ -207,11 +217,11 @@ def jobs(tier):
     A(lambda: wb2csr_inst("Wishbone2CSR unregistered dw16", 16, 3, False, caw=2, adrs=range(5)))
     # --- cache, 2 lines x 2 words, both width directions
     A(lambda: cache_inst("Cache 8->16 2 lines x 2 words (free slave)", 4, 8, 16, 3, 2, adrs=range(8), sels=[0, 1],
-                         slave_letters=[(0, 0, 0), (1, 0, 0), (1, 0xB2A1, 0)]), q=350)
+                         slave_letters=[(0, 0, 0), (1, 0, 0), (1, 0xB2A1, 0)]), q=350, w=9)
     A(lambda: cache_inst("Cache 16->8 2 lines x 2 words (free slave)", 2, 16, 8, 2, 3, adrs=range(4), sels=[0, 3, 1],
-                         slave_letters=[(0, 0, 0), (1, 0, 0), (1, 0xA1, 0)]), q=450)
-    A(lambda: cache_inst("Cache 8->16 / SRAM d4", 4, 8, 16, 3, 2, depth=4, adrs=range(8), sels=[1]), q=2000, t=30000)
-    A(lambda: cache_inst("Cache 16->8 / SRAM d8", 2, 16, 8, 2, 3, depth=8, adrs=range(4), sels=[3, 1]), q=2000, t=30000)
+                         slave_letters=[(0, 0, 0), (1, 0, 0), (1, 0xA1, 0)]), q=450, w=9)
+    A(lambda: cache_inst("Cache 8->16 / SRAM d4", 4, 8, 16, 3, 2, depth=4, adrs=range(8), sels=[1]), q=2000, t=15000, w=9)
+    A(lambda: cache_inst("Cache 16->8 / SRAM d8", 2, 16, 8, 2, 3, depth=8, adrs=range(4), sels=[3, 1]), q=2000, t=15000, w=9)
     # --- realistic sizes, random lock-step co-simulation with the monitors armed
     B(lambda: sram_inst("SRAM 4KiB dw32", 32, 1024, 30, mode="B", init=words_init(64, 4, lambda i: i * 0x01010101 + 7)))
     B(lambda: sram_inst("SRAM 1KiB dw64 burst", 64, 128, 29, burst=True, mode="B",
@@ -225,6 +235,10 @@ def jobs(tier):
                              init=words_init(200, 4, lambda i: 0x80000000 + i * 0x10203)))
     B(lambda: conv_sram_inst("Down 128->32 / SRAM 1KiB", 128, 32, 10, 256, mode="B",
                              init=words_init(256, 4, lambda i: i * 0x9E3779B1)))
+    B(lambda: conv_sram_inst("Down 64->32 / burst SRAM 1KiB (linear bursts)", 64, 32, 10, 256, mode="B", burst=True,
+                             init=words_init(256, 4, lambda i: 0x1000193 * (i + 1))))
+    B(lambda: conv_sram_inst("Down 32->8 / burst SRAM 256B (linear bursts)", 32, 8, 10, 256, mode="B", burst=True,
+                             init=words_init(256, 1, lambda i: 7 * i + 3)))
     B(lambda: conv_sram_inst("Up 32->128 / SRAM 1KiB", 32, 128, 10, 64, mode="B",
                              init=words_init(64, 16, lambda i: (i + 1) * 0x0F1E2D3C4B5A69788796A5B4C3D2E1F0 + i)))
     B(lambda: remap_inst("Remap word dw32 3 regions (ref slave)", 32, 30, 0x0, 0x20000000,
@@ -242,6 +256,7 @@ def jobs(tier):
     B(lambda: cache_inst("Cache 32 words 64->16 (ref slave)", 32, 64, 16, 10, 12, mode="B"))
     B(lambda: cache_inst("Cache 1024 words 32->64 reverse=False (ref slave)", 1024, 32, 64, 14, 13, reverse=False,
                          mode="B"))
+    J.sort(key=lambda jb: -jb.weight)
     return J
 
 
@@ -260,6 +275,9 @@ def corpus_instances():
         "corpus: Up 32->128 / SRAM d64":
             lambda: conv_sram_inst("corpus: Up 32->128 / SRAM d64", 32, 128, 10, 64, mode="B",
                                    init=words_init(64, 16, lambda i: (i + 1) * 0x0F1E2D3C4B5A69788796A5B4C3D2E1F0 + i)),
+        "corpus: Up 32->64 / burst SRAM d16":
+            lambda: conv_sram_inst("corpus: Up 32->64 / burst SRAM d16", 32, 64, 5, 16, mode="B", burst=True,
+                                   init=[0x0101010101010101 * (a + 1) for a in range(16)]),
         "corpus: Down 64->32 / SRAM d64":
             lambda: conv_sram_inst("corpus: Down 64->32 / SRAM d64", 64, 32, 8, 64, mode="B",
                                    init=[0x80000000 + a * 0x10203 for a in range(64)]),
@@ -317,8 +335,8 @@ def correspond(ctx):
                 "in that (state, input) pair; counted per distinct pair")
     ctx.assumptions = [
         "theorems quantify over masters that follow the classic handshake (a presented strobe is held until ack)",
-        "cache_refines_mem is not proved (stated as cache_refines_mem_partial_open in LitexProps/C07.lean): "
-        "wishbone.Cache is covered by the model/implementation tie and the reference-memory monitor only",
+        "adapters are proved over the abstract arbitrary-latency byte memory (latMem) and, for the converters, over "
+        "the SRAM model; Cache/Remapper/Wishbone2CSR over the real SRAM/CSR banks are covered by the tie and monitors",
     ]
     cdis = run_corpus(ctx)
     dis, bad = run_jobs(ctx, ctx.jobs)
@@ -405,9 +423,10 @@ def search(ctx, disagreements, proof_info):
     # 1. a monitor that already fired during co-simulation
     for d in disagreements:
         if getattr(d, "kind", "").startswith("monitor:"):
-            trace, msg = d.trace, d.kind[8:]
+            trace, msg, fmt = d.trace, d.kind[8:], L.FMT_ADAPTER
             try:        # minimise (drop cycles while the monitor still fires on the real code)
                 inst = all_jobs[d.job].make()
+                fmt = inst.letter_format
                 small = shrink_blocks(inst, list(trace))
                 r = explore.replay_with_monitor(inst, small)
                 if r:
@@ -415,7 +434,7 @@ def search(ctx, disagreements, proof_info):
             except Exception:
                 pass
             return {"instance": d.inst_name, "trace": [list(l) for l in trace], "monitor": msg,
-                    "letter_format": L.FMT_ADAPTER, "source": "jobs"}
+                    "letter_format": fmt, "source": "jobs"}
     # 2. disagreement traces replayed on the real code with the monitor armed
     for d in disagreements:
         j = getattr(d, "job", None)
@@ -429,7 +448,7 @@ def search(ctx, disagreements, proof_info):
         if r:
             tr = shrink_blocks(inst, d.trace[:r[0] + 1])
             return {"instance": inst.name, "trace": [list(l) for l in tr], "monitor": r[1],
-                    "letter_format": L.FMT_ADAPTER, "source": "jobs"}
+                    "letter_format": inst.letter_format, "source": "jobs"}
     # 3. closed-loop random search: the instances of the broken jobs first, then the search grid
     bad = sorted({getattr(d, "job", None) for d in disagreements} - {None})
     cands = []
@@ -451,7 +470,7 @@ def search(ctx, disagreements, proof_info):
         if r:
             trace, msg = r
             return {"instance": inst.name, "trace": [list(l) for l in trace], "monitor": msg,
-                    "letter_format": L.FMT_ADAPTER, "source": source}
+                    "letter_format": inst.letter_format, "source": source}
     return None
 
 
@@ -579,11 +598,42 @@ def probe_wb2csr_partial_sel():
                    ", ".join("%#x" % r for r in res) + " (flat byte memory: 0x112233dd)")
 
 
+def probe_upconverter_burst():
+    """UpConverter forwards cti/bte unchanged: a burst-capable wide slave advances its address counter on every
+    narrow beat."""
+    init = [0x1111111100000000 * 0 + (0x0101010101010101 * (a + 1)) for a in range(16)]
+    top = L.build_conv_sram(32, 64, 5, 16, burst=True, init=init)
+    nl = L.FastNetlist(top)
+    m = top.master
+    data = {2: 0xAAAAAAA2, 3: 0xBBBBBBB3, 4: 0xCCCCCCC4}
+    for k, a in enumerate((2, 3, 4)):
+        _beat = (1, 1, 1, a, 15, data[a], 7 if k == 2 else 2, 0)
+        for t in range(20):
+            for sig, v in zip((m.cyc, m.stb, m.we, m.adr, m.sel, m.dat_w, m.cti, m.bte), _beat):
+                nl.set(sig, v)
+            nl.settle()
+            ack = nl.getu(m.ack)
+            nl.tick()
+            if ack:
+                break
+    nl.set(m.cyc, 0)
+    nl.set(m.stb, 0)
+    nl.settle()
+    nl.tick()
+    got = {a: _classic(nl, m, 0, a, 15, 0) for a in (2, 3, 4, 5)}
+    exp = dict(data)
+    exp[5] = (init[2] >> 32) & 0xFFFFFFFF
+    fails = got != exp
+    return fails, ("UpConverter 32->64 over a bursting SRAM, write burst to 2,3,4 then classic reads: " +
+                   ", ".join("adr %d -> %#x (flat memory: %#x)" % (a, got[a], exp[a]) for a in (2, 3, 4, 5)))
+
+
 PROBES = [
     ("C07-cache-no-valid-bit", probe_cache_no_valid_bit),
     ("C07-sram-wrap-burst-overrun", probe_sram_wrap_overrun),
     ("C07-remapper-wide-bus-region", probe_remapper_wide_bus),
     ("C07-wb2csr-no-byte-enables", probe_wb2csr_partial_sel),
+    ("C07-upconverter-burst-passthrough", probe_upconverter_burst),
 ]
 
 
